@@ -1,7 +1,8 @@
 #!/bin/bash
 # replay_benign.sh <dir with N/patch.diff ...> : apply each behaviour-preserving patch to /repo, run every quick
 # check, print any check that does not exit 0 (a false alarm or a brittle anchor), undo.
-cd /repo || exit 2
+R=${REPLAY_REPO:-/repo}; export VERIF_REPO=$R
+cd $R || exit 2
 git diff --quiet || { echo "/repo has uncommitted changes"; exit 2; }
 for p in "$@"; do
   if ! git apply "$p" 2>/dev/null; then echo "$p: does not apply to the current tree"; continue; fi
